@@ -4,7 +4,10 @@
 (* JSON arrays deserialize to exactly this).  Offsets are 0-based as in    *)
 (* the implementation: the byte at offset p of s is s[p+1].                *)
 (***************************************************************************)
-EXTENDS Integers, Sequences, FiniteSets
+EXTENDS Integers, Sequences, FiniteSets, IOUtils
+
+\* a switch of the specification that the runner may set through the environment (named deviations, DESIGN 7.2)
+EnvOr(k, d) == IF k \in DOMAIN IOEnv THEN IOEnv[k] ELSE d
 
 Byte == 0..255
 
